@@ -166,14 +166,20 @@ def _mk(args):
             # a P1 candidate may legitimately win on an HDLC payload that looks like a readout: keep the clause only
             # when the stream contains no '/'-line a P1 reader could match (checked by running a P1 reader alone)
             from han.dlde import ModeDReader
-            if any(r.is_valid for r in ModeDReader().read(data)):
-                mode, plan_payloads = "free", None
+            try:
+                if any(r.is_valid for r in ModeDReader().read(data)):
+                    mode, plan_payloads = "free", None
+            except Exception:  # noqa: BLE001  (the recorded run will show the exception; C14 judges it)
+                pass
         if mode == "clean" and style == "p1_clean" and hd:
             # likewise an HDLC candidate could win on bytes inside a readout (0x7E is '~'): only if it really does
             for nme in hd:
                 rd = mk_readers([nme])[0]
-                if any(f.is_valid for f in rd.read(data)):
-                    mode, plan_payloads = "free", None
+                try:
+                    if any(f.is_valid for f in rd.read(data)):
+                        mode, plan_payloads = "free", None
+                except Exception:  # noqa: BLE001
+                    pass
         out.append(record(variant, mk_readers(names), split(data, cuts), plan_payloads, mode, f"gen:{style}", names))
     return out
 
